@@ -38,6 +38,10 @@ CHECKS = {
             "Decides for all stores the structural necessary conditions of an exact, dangling-free cascade: for each of the five item kinds, the removal routine consults every live reverse index whose key mentions that kind (matrix derived from the field types, 11 cells); cascades that gather handles from several rows use a set; Annotation::remove_data keeps exactly the pairs that differ from (set, data) (4-row truth table); non-strict removal deletes the annotation only under an emptiness test; DELETE queries consume every collection they fill; and no undischarged panic source is reachable from the removal entry points ('succeeds whenever the item exists'). Exactness of the cascade for each store shape is not decided.",
             "trusts syn/rustc, the ROUTINES and SUBSTITUTE tables in lib/props/c02.py, rules/panic_safe.json[C02]",
             "DESIGN.md section 4 C02", "syn+mir"),
+    "C03": ("other", "ownership of id maps (MIR field effects), provenance and dominance rules on StoreFor::insert/remove (MIR), sibling contradiction on liveness tests, must-call of the kind check, panic reachability of the id parser, table agreement inside reindex() and gap-convention agreement between gaps() and Handle::reindex",
+            "Decides for every history and every lookup string the structural necessary conditions: only sanctioned functions write id maps; StoreFor::remove deletes exactly the removed item's own id (provenance of the HashMap key) before the tombstone; no liveness test of a store slot ignores tombstones; the temporary-id parser has no reachable panic source and resolve_id checks the kind prefix; the id-map insertion is confined to the branch where has(id) is false and generate_id retries; reindex() remaps each id map with the gap table of its own store, the shift convention of gaps() and Handle::reindex agree (evaluated on the equality case), and every live index mentioning a renumbered handle type must be remapped (5 known findings: reindex() is incomplete).",
+            "trusts rustc MIR/syn and the owners table; the arithmetic of compaction beyond the gap convention and the remapping of handles stored inside annotations are not decided",
+            "DESIGN.md section 4 C03", "mir+syn"),
 }
 
 NA = {
